@@ -116,6 +116,10 @@ class Threads(EngineBase):
             # a CPU went offline earlier: its accumulated time stays in the
             # "cpu" total line only
             b["cpu_offline"] = [rng.randrange(0, 5000) for _ in range(10)]
+        if rng.random() < 0.1:
+            # /proc/stat cannot be read while psutil is imported: no
+            # import-time sample, the field layout is learnt later
+            b["import_deny"] = {"/proc/stat": 13}
         return b
 
     def target_world(self, rng):
@@ -1314,8 +1318,40 @@ class Threads(EngineBase):
             else:
                 t1 = last.get(key)
                 if t1 is None:
-                    t1 = imp if t == 0 else reads[0][2]
+                    t1 = imp if t == 0 and not boot.get("import_deny") \
+                        else reads[0][2]
             last[key] = t2
+            if boot.get("import_deny") and len(reads) >= 3 and (
+                    blocking or t1 is reads[0][2]):
+                # psutil learns the field layout of /proc/stat with one more
+                # read at its very first cpu_times() call (it could not at
+                # import): the sample proper is the read after it
+                ok_alt = False
+                for alt in reads[1:-1]:
+                    rows_ = [(alt[2][c], t2[c]) for c in cpu_ids] \
+                        if op["percpu"] else [(total_row(alt[2]),
+                                               total_row(t2))]
+                    vals_ = out[1] if op["percpu"] else [out[1]]
+                    good = True
+                    for (a, b), v in zip(rows_, vals_):
+                        d = [max(0, b[i] - a[i]) for i in range(nf)]
+                        tot = sum(d) - (d[8] if nf >= 9 else 0) - (
+                            d[9] if nf >= 10 else 0)
+                        busy = tot - d[3] - d[4]
+                        if op["op"] == "cpu_percent":
+                            exp = 100.0 * busy / tot if tot > 0 else 0.0
+                            good = good and abs(v - exp) <= 0.051
+                        else:
+                            for i in range(nf):
+                                exp = min(100.0, 100.0 * d[i] / tot) \
+                                    if tot > 0 else 0.0
+                                good = good and abs(v[i] - exp) <= 0.051 + \
+                                    (100.0 if tot < 100 else 0)
+                    ok_alt = ok_alt or good
+                if ok_alt:
+                    probes["layout_probe_read_skipped"] = probes.get(
+                        "layout_probe_read_skipped", 0) + 1
+                    continue
             rows = [(t1[c], t2[c]) for c in cpu_ids] if op["percpu"] else \
                 [(total_row(t1), total_row(t2))]
             vals = out[1] if op["percpu"] else [out[1]]
